@@ -52,10 +52,10 @@ def rand_atom(rng):
     if c < 0.7:
         return rng.random() < 0.5
     if c < 0.8:
-        return Char(rng.choice(["a", "Z", "0", "(", ")", ";", "\"", "#", "\\", "|", "'", ".", "+"]))
+        return Char(rng.choice(["a", "Z", "0", "(", ")", ";", "\"", "#", "\\", "|", "'", ".", "+", "\u03bb", "\u00e9", "\u00df", "\u0434", "\u4e2d", "\U0001F600", "\u00d7", "\u20ac"]))
     if rng.random() < 0.5:
         # random strings over characters that matter to a lexer, line ends of every kind included
-        return "".join(rng.choice(["a", "b", " ", "\"", "\\", "\n", "\r", "\r\n", "\t", "\a", "|", ";", "(", ")", "#", "'", "n", "\\n", "\n#!", "\n;", "\n#|", "!"]) for _ in range(rng.randint(0, 6)))
+        return "".join(rng.choice(["a", "b", " ", "\"", "\\", "\n", "\r", "\r\n", "\t", "\a", "|", ";", "(", ")", "#", "'", "n", "\\n", "\n#!", "\n;", "\n#|", "!", "\u00e9", "\u03bb", "\U0001F600"]) for _ in range(rng.randint(0, 6)))
     return rng.choice(["", "s", "two words", "q\"uote", "back\\slash", "new\nline", "tab\there", "bell\a", "bar|", "semi;colon", "(paren)", "\r", "\b"])
 
 
